@@ -385,13 +385,19 @@ theorem load_serialized_compressed (K : ScriptCompress.KeyOps) (hK : K.Sound) (H
 /-! ### configuration changes (Model.BalancesCfg, Gen.WalletCfgFacts) -/
 
 /-- The model's treatment of the two thresholds restated against /repo's CURRENT source (facts regenerated by
-    go/cmd/gen_c17 on every run; this theorem stops compiling when one of them changes): `allBalMinVal` is stored only
-    by ApplyBalMinVal (the value of CFG.AllBalances.MinValue) and loaded only by AllBalMinVal; a store is reachable in
-    package common only from ApplyBalMinVal and InitConfig — NOT from `Reset()`, which the WebUI / TextUI run after
-    every config change; outside package common only wallet.LoadBalancesFromUtxo calls it, once, before its scan
-    loop, behind the WalletON guard; NewUTXO and all_del_utxos compare with the value in force and nothing in
-    client/wallet reads CFG.AllBalances.MinValue; `useMapCnt` is assigned only in InitMaps and LoadBalances, from
-    CFG.AllBalances.UseMapCnt. -/
+    go/cmd/gen_c17 on every run; this theorem stops compiling when one of them changes). The facts are in the
+    generator's canonical form: a function is named only when it is an ENTRY POINT of its package (exported, init,
+    main, used as a value); unexported helpers count as inlined into their callers; the two package variables are
+    found by their role (what `common.AllBalMinVal()` loads; the wallet variable assigned from
+    CFG.AllBalances.UseMapCnt, printed `<useMapCnt>`); locals are resolved. So: the variable behind
+    `common.AllBalMinVal()` is stored only by ApplyBalMinVal (the value of CFG.AllBalances.MinValue) and loaded only
+    by AllBalMinVal; a store is reachable in package common only from ApplyBalMinVal and InitConfig — NOT from
+    `Reset()`, which the WebUI / TextUI run after every config change; outside package common only
+    wallet.LoadBalancesFromUtxo calls it, once, unconditionally, before its scan, behind the WalletON guard; the only
+    package-level / imported quantities that ordered comparisons on the paths of the callbacks TxNotifyAdd /
+    TxNotifyDel depend on are `common.AllBalMinVal()` (the value in force) and, when adding, the list->map
+    threshold; nothing in client/wallet reads CFG.AllBalances.MinValue; the wallet's copy of
+    CFG.AllBalances.UseMapCnt is assigned only in InitMaps and LoadBalances, from that field. -/
 theorem model_matches_source_facts :
     Gen.WalletCfgFacts.minValWriters = ["ApplyBalMinVal"] ∧
     Gen.WalletCfgFacts.minValStored = ["CFG.AllBalances.MinValue"] ∧
@@ -400,7 +406,9 @@ theorem model_matches_source_facts :
     Gen.WalletCfgFacts.resetMayWriteMinVal = false ∧
     Gen.WalletCfgFacts.minValExternalCallers = ["wallet.LoadBalancesFromUtxo"] ∧
     Gen.WalletCfgFacts.loadGuardedByWalletON = true ∧ Gen.WalletCfgFacts.loadAppliesOnceBeforeScan = true ∧
-    Gen.WalletCfgFacts.newUtxoReadsInForce = true ∧ Gen.WalletCfgFacts.allDelReadsInForce = true ∧
+    Gen.WalletCfgFacts.addPathComparesWith = ["(<useMapCnt>-1)", "common.AllBalMinVal()"] ∧
+    Gen.WalletCfgFacts.delPathComparesWith = ["common.AllBalMinVal()"] ∧
+    Gen.WalletCfgFacts.addPathReadsInForce = true ∧ Gen.WalletCfgFacts.delPathReadsInForce = true ∧
     Gen.WalletCfgFacts.walletReadsCfgMinValue = [] ∧
     Gen.WalletCfgFacts.useMapCntWriters = ["InitMaps", "LoadBalances"] ∧
     Gen.WalletCfgFacts.useMapCntSources = ["int(common.Get(&common.CFG.AllBalances.UseMapCnt))"] :=
